@@ -1,10 +1,12 @@
 //! History driver (engine E1) and the Memvid-level monitors.
 //! usage: mvdrive <mode> --seed N --scratch DIR --out report.json [mode options]
 
+pub mod capsule;
 pub mod cards;
 pub mod derived;
 pub mod hist;
 pub mod maint;
+pub mod record;
 pub mod search;
 pub mod sidecar;
 pub mod tickets;
@@ -201,6 +203,15 @@ pub fn main() {
             }
             rep
         }
+        "c29" => {
+            let seed = args.u64("seed", 1);
+            let scratch = PathBuf::from(args.str("scratch").unwrap_or("."));
+            let sizes: Vec<usize> = args.str("sizes").unwrap_or("4,1000").split(',').filter_map(|s| s.parse().ok()).collect();
+            let mut rep = Report::new("C29", "capsules", seed, "files 'MV2\\0' + random bytes of the given sizes (around the 1 MiB chunk size): lock, unlock, compare; then mutants of the capsule: header bytes (every field), every length-prefix byte, ciphertext/tag bytes, truncation at every chunk boundary, boundary +-1..4 and random offsets, chunk swap / removal / duplication, appended garbage; oracle = unlock fails and the output path is untouched; a case is one unlock; distinct = distinct rejected mutants");
+            capsule::c29(&mut rep, &scratch, &mut Rng::new(seed), &sizes, args.flag("thorough"));
+            rep
+        }
+        "runhist" => record::runhist(&args),
         "sidecar" => {
             let seed = args.u64("seed", 1);
             let scratch = PathBuf::from(args.str("scratch").unwrap_or("."));
